@@ -71,17 +71,50 @@ class Server:
         self.cmdlog: list = []
         self._timer = None
         self.reorder = False
+        self.late_choice = False  # when True every reply / drain completion may arrive late (choice point)
+        self.late: list = []  # completions held back until nothing else can happen at this instant
         self.rr: dict[str, int] = {}  # per queue: index of the consumer that is served next
         loop.select_hooks.append(self._pump)
 
     # -- request handling -----------------------------------------------------------------
     def submit(self, chan, label, fn, want_reply=True):
         fut = self.loop.create_future() if want_reply else None
-        self.pending.append([chan, label, fn, fut])
-        return fut
+        late = False
+        if self.late_choice and self.chooser is not None:
+            # the publisher confirm / rpc reply / write-drain of this frame reaches the client only
+            # after everything else that happens at this instant (e.g. after a redelivery)
+            late = bool(self.chooser.choose(f"late:{label.split('[')[0]}", 2))
+        self.pending.append([chan, label, fn, fut, late])
+        drain = None
+        if not want_reply:
+            drain = self.loop.create_future()
+            if late:
+                self.late.append((drain, None, None))
+            else:
+                drain.set_result(None)
+        return fut if want_reply else drain
+
+    def _complete(self, fut, res, exc, late):
+        if late:
+            self.late.append((fut, res, exc))
+        elif exc is not None:
+            self.loop.post_io(_set_exc, fut, exc)
+        else:
+            self.loop.post_io(_set_res, fut, res)
+
+    def _flush_late(self, loop) -> None:
+        # held-back completions arrive once nothing else can happen at this instant
+        if self.late and not loop._ready and not loop._io:
+            for fut, res, exc in self.late:
+                if exc is not None:
+                    loop.post_io(_set_exc, fut, exc)
+                else:
+                    loop.post_io(_set_res, fut, res)
+            self.late = []
 
     def _pump(self, loop) -> None:
         if not self.pending:
+            self._flush_late(loop)
             return
         while self.pending:
             i = 0
@@ -96,7 +129,7 @@ class Server:
                         heads.append(idx)
                 if len(heads) > 1:
                     i = heads[self.chooser.choose("amqp-order", len(heads))]
-            chan, label, fn, fut = self.pending.pop(i)
+            chan, label, fn, fut, late = self.pending.pop(i)
             try:
                 if chan.is_closed:
                     raise ChannelClosed("channel closed")
@@ -104,12 +137,17 @@ class Server:
             except BaseException as e:  # noqa: BLE001
                 self.cmdlog.append((loop._ns, chan.name, label, "ERR"))
                 if fut is not None:
-                    loop.post_io(_set_exc, fut, e)
+                    self._complete(fut, None, e, late)
                 continue
             self.cmdlog.append((loop._ns, chan.name, label, "ok"))
             if fut is not None:
-                loop.post_io(_set_res, fut, res)
+                self._complete(fut, res, None, late)
         self._dispatch()
+        self._flush_late(loop)
+
+    def busy(self) -> bool:
+        """Something is still on its way between client and server."""
+        return bool(self.pending or self.late)
 
     def drain(self) -> None:
         self._pump(self.loop)
@@ -284,7 +322,7 @@ class Channel:
             exc = self.fail_next.pop(0)
             if exc is not None:
                 raise exc
-        self.s.submit(self, label, fn, False)
+        await self.s.submit(self, label, fn, False)  # the write has drained
 
     # server -> client
     def _deliver(self, ctag, dtag, m, q) -> None:
